@@ -429,4 +429,199 @@ theorem drDeOrd_errs (sn : Bool) (fs : List Field) : ∀ items x,
             · rename_i heq; cases h; exact ih _ _ heq
             · cases h
 
+/-! ### which attribute flag an error depends on (for ALL inputs) -/
+
+theorem svLoop_noSuchField (forbid : Bool) (db : List Col) : ∀ es rem pend,
+    svLoop forbid db es rem pend = .error .svNoSuchField → forbid = true := by
+  induction db with
+  | nil => intro es rem pend h; cases h
+  | cons c cs ih =>
+    intro es rem pend h
+    unfold svLoop at h
+    split at h
+    · split at h
+      · cases h
+      · split at h
+        · rename_i heq; cases h; exact ih _ _ _ heq
+        · cases h
+    · split at h
+      · assumption
+      · exact ih _ _ _ h
+
+theorem serValueByName_noSuchField (d : Desc) (fvs : List (Field × Val)) (db : List Col)
+    (h : serValueByName d fvs db = .error .svNoSuchField) : d.forbidExcess = true := by
+  unfold serValueByName at h
+  simp only [] at h
+  split at h
+  · rename_i heq; cases h; exact svLoop_noSuchField _ _ _ _ _ heq
+  · split at h <;> cases h
+
+theorem svOrdered_flags (sn forbid : Bool) (fs : List (Field × Val)) : ∀ db,
+    (svOrdered sn forbid fs db = .error .svNoSuchField → forbid = true) ∧
+    (svOrdered sn forbid fs db = .error .svFieldNameMismatch → sn = false) := by
+  induction fs with
+  | nil =>
+    intro db
+    unfold svOrdered
+    constructor
+    · intro h
+      split at h
+      · assumption
+      · cases h
+    · intro h
+      split at h
+      · split at h <;> cases h
+      · cases h
+  | cons p fs ih =>
+    intro db
+    obtain ⟨f, v⟩ := p
+    cases db with
+    | nil =>
+      unfold svOrdered
+      constructor <;> intro h <;> split at h
+      · exact (ih []).1 h
+      · cases h
+      · exact (ih []).2 h
+      · cases h
+    | cons c cs =>
+      unfold svOrdered
+      constructor
+      · intro h
+        split at h
+        · split at h
+          · cases h
+          · split at h
+            · rename_i heq; cases h; exact (ih cs).1 heq
+            · cases h
+        · split at h
+          · exact (ih (c :: cs)).1 h
+          · cases h
+      · intro h
+        split at h
+        · split at h
+          · cases h
+          · split at h
+            · rename_i heq; cases h; exact (ih cs).2 heq
+            · cases h
+        · rename_i hn
+          split at h
+          · exact (ih (c :: cs)).2 h
+          · cases sn with
+            | false => rfl
+            | true => simp at hn
+
+theorem dvTcLoop_excess (forbid : Bool) (db : List Col) : ∀ es rem,
+    dvTcLoop forbid db es rem = .error .dvExcessField → forbid = true := by
+  induction db with
+  | nil => intro es rem h; cases h
+  | cons c cs ih =>
+    intro es rem h
+    unfold dvTcLoop at h
+    split at h
+    · split at h
+      · cases h
+      · split at h
+        · cases h
+        · exact ih _ _ h
+    · split at h
+      · assumption
+      · exact ih _ _ h
+
+theorem tcValueByName_excess (d : Desc) (db : List Col) (h : tcValueByName d db = .error .dvExcessField) :
+    d.forbidExcess = true := by
+  unfold tcValueByName at h
+  split at h
+  · rename_i heq; cases h; exact dvTcLoop_excess _ _ _ _ heq
+  · split at h <;> cases h
+
+theorem dvTcOrd_flags (sn forbid : Bool) (fs : List Field) : ∀ db,
+    (dvTcOrd sn forbid fs db = .error .dvExcessField → forbid = true) ∧
+    (dvTcOrd sn forbid fs db = .error .dvFieldNameMismatch → sn = false) := by
+  induction fs with
+  | nil =>
+    intro db
+    unfold dvTcOrd
+    constructor
+    · intro h
+      split at h
+      · assumption
+      · cases h
+    · intro h
+      split at h
+      · split at h <;> cases h
+      · cases h
+  | cons f fs ih =>
+    intro db
+    cases db with
+    | nil =>
+      unfold dvTcOrd
+      constructor <;> intro h <;> split at h
+      · exact (ih []).1 h
+      · cases h
+      · exact (ih []).2 h
+      · cases h
+    | cons c cs =>
+      unfold dvTcOrd
+      constructor
+      · intro h
+        split at h
+        · split at h
+          · exact (ih (c :: cs)).1 h
+          · cases h
+        · split at h
+          · cases h
+          · exact (ih cs).1 h
+      · intro h
+        split at h
+        · rename_i hn
+          split at h
+          · exact (ih (c :: cs)).2 h
+          · cases sn with
+            | false => rfl
+            | true => simp at hn
+        · split at h
+          · cases h
+          · exact (ih cs).2 h
+
+theorem srOrdered_nameMismatch (sn : Bool) (fs : List (Field × Val)) : ∀ db,
+    srOrdered sn fs db = .error .srColumnNameMismatch → sn = false := by
+  induction fs with
+  | nil => intro db h; cases db <;> simp [srOrdered] at h
+  | cons p fs ih =>
+    intro db h
+    obtain ⟨f, v⟩ := p
+    cases db with
+    | nil => simp [srOrdered] at h
+    | cons c cs =>
+      unfold srOrdered at h
+      split at h
+      · rename_i hn
+        cases sn with
+        | false => rfl
+        | true => simp at hn
+      · split at h
+        · cases h
+        · split at h
+          · rename_i heq; cases h; exact ih _ heq
+          · cases h
+
+theorem drTcOrd_nameMismatch (sn : Bool) (fs : List Field) : ∀ db,
+    drTcOrd sn fs db = .error .drColumnNameMismatch → sn = false := by
+  induction fs with
+  | nil => intro db h; simp [drTcOrd] at h
+  | cons f fs ih =>
+    intro db h
+    cases db with
+    | nil => simp [drTcOrd] at h
+    | cons c cs =>
+      unfold drTcOrd at h
+      split at h
+      · rename_i hn
+        cases sn with
+        | false => rfl
+        | true => simp at hn
+      · split at h
+        · cases h
+        · exact ih _ h
+
 end ScyllaVerif.Derive
